@@ -50,7 +50,9 @@ Inductive tfield :=
                                               chunks, may be empty (the blank before it is still printed) *)
 | FMac                                     (* TSIG: "mac_len mac"; base64.b64decode(tok.get_string()), length compared *)
 | FOther                                   (* TSIG: "other_len [other]"; the data token is read only when other_len > 0 *)
-| FGposStr.                                (* GPOS latitude / longitude / altitude: get_string, kept as the octets of the text *)
+| FGposStr                                 (* GPOS latitude / longitude / altitude: get_string, kept as the octets of the text *)
+| FKeyRec.                                 (* the whole KEY record: flags (number or LegacyFlag mnemonics joined by "|"),
+                                              protocol (number or mnemonic), algorithm, and the key unless the flags say NOKEY *)
 
 Inductive gwval := GwNone | GwText (t : list Z) | GwName (n : name).
 
@@ -61,7 +63,9 @@ Inductive tval :=
 | VStrs (l : list (list Z))
 | VWindows (ws : list (Z * list Z))
 | VNames (l : list name)
-| VGw (g a : Z) (gw : gwval).
+| VGw (g a : Z) (gw : gwval)
+| VKey (flags proto alg : Z) (algtext : list Z) (key : list Z).
+   (* algtext: the algorithm token between the token phase and the constructor ([] afterwards) *)
 
 Record style := mkStyle {
   s_origin : option name; s_relativize : bool;
@@ -766,6 +770,8 @@ Definition print_field (st : style) (f : tfield) (v : tval) : res (list Z) :=
   | FMac, VBytes b => Ok (dec (zlen b) ++ [32] ++ b64encode b)
   | FOther, VBytes b => Ok (dec (zlen b) ++ (if is_nil b then [] else 32 :: b64encode b))
   | FGposStr, VBytes b => Ok b          (* self.latitude.decode(): the validated strings are ASCII *)
+  | FKeyRec, VKey f p a _ k =>          (* dnskeybase: f"{self.flags} {self.protocol} {self.algorithm} {key}" *)
+      Ok (dec f ++ [32] ++ dec p ++ [32] ++ dec a ++ [32] ++ styled_base64ify k (s_b64_chunk st) (s_b64_sep st))
   | _, _ => Internal eBadCase
   end.
 
@@ -807,6 +813,48 @@ Definition rest_bytes (decode : list Z -> res (list Z)) (st : tstate) : res (tva
   do b <- utf8_encode (fst hs);
   do d <- decode b;
   Ok (VBytes d, snd hs).
+
+(* dns/rdtypes/ANY/KEY.py *)
+Definition legacy_flags : list (list Z * Z) :=
+  [([78;79;67;79;78;70], 16384); ([78;79;65;85;84;72], 32768); ([78;79;75;69;89], 49152); ([70;76;65;71;50], 8192);
+   ([69;88;84;69;78;68], 4096); ([70;76;65;71;52], 2048); ([70;76;65;71;53], 1024); ([85;83;69;82], 0); ([90;79;78;69], 256);
+   ([72;79;83;84], 512); ([78;84;89;80;51], 768); ([70;76;65;71;56], 128); ([70;76;65;71;57], 64); ([70;76;65;71;49;48], 32);
+   ([70;76;65;71;49;49], 16); ([83;73;71;48], 0); ([83;73;71;49], 1); ([83;73;71;50], 2); ([83;73;71;51], 3); ([83;73;71;52], 4);
+   ([83;73;71;53], 5); ([83;73;71;54], 6); ([83;73;71;55], 7); ([83;73;71;56], 8); ([83;73;71;57], 9); ([83;73;71;49;48], 10);
+   ([83;73;71;49;49], 11); ([83;73;71;49;50], 12); ([83;73;71;49;51], 13); ([83;73;71;49;52], 14); ([83;73;71;49;53], 15)].
+Definition key_protocols : list (list Z * Z) :=
+  [([78;79;78;69], 0); ([84;76;83], 1); ([69;77;65;73;76], 2); ([68;78;83;83;69;67], 3); ([73;80;83;69;67], 4); ([65;76;76], 255)].
+
+(* flags |= LegacyFlag[mnemonic].value for mnemonic in flags_str.split("|") *)
+Fixpoint or_mnemonics (ms : list (list Z)) (acc : Z) : res Z :=
+  match ms with
+  | [] => Ok acc
+  | m :: r => match assoc_text m legacy_flags with
+              | Some v => or_mnemonics r (Z.lor acc v)
+              | None => Lib eSyntax
+              end
+  end.
+
+(* token = tok.get(); try tok.as_uintN(token) except SyntaxError: mnemonics(tok.as_string(token)) - the raw
+   token, no unescaping *)
+Definition key_number_or (maxv : Z) (names : list Z -> res Z) (t : token) : res Z :=
+  match as_uint maxv t 10 with
+  | Ok v => Ok v
+  | Lib _ => do s <- as_string t 0; names s
+  | Internal e => Internal e
+  end.
+
+Definition key_from_text (st : tstate) : res (tval * tstate) :=
+  do ts <- get0 st;
+  do flags <- key_number_or max16 (fun s => or_mnemonics (split_on 124 s []) 0) (fst ts);
+  do ps <- get0 (snd ts);
+  do proto <- key_number_or max8 (fun s => match assoc_text s key_protocols with Some v => Ok v | None => Lib eSyntax end) (fst ps);
+  do als <- get_string (snd ps) 0;
+  if negb (Z.land flags 49152 =? 49152) then
+    do hs <- concatenate_remaining_identifiers (snd als) false;
+    do e <- utf8_encode (fst hs); do k <- b64decode e;
+    Ok (VKey flags proto 0 (fst als) k, snd hs)
+  else Ok (VKey flags proto 0 (fst als) [], snd als).
 
 (* base64.b64decode of a str (no .encode()): non-ASCII characters are a ValueError, not skipped *)
 Definition b64decode_str (t : list Z) : res (list Z) :=
@@ -854,6 +902,7 @@ Definition parse_field (c : pctx) (f : tfield) (st : tstate) : res (tval * tstat
       do hs <- concatenate_remaining_identifiers st true;
       do e <- utf8_encode (fst hs); do b <- b64decode e; Ok (VBytes b, snd hs)
   | FGposStr => do ts <- get_string st 0; Ok (VBytes (fst ts), snd ts)
+  | FKeyRec => key_from_text st
   | FMac =>
       do ns <- get_uint max16 st 10;
       do ts <- get_string (snd ns) 0;
@@ -911,6 +960,7 @@ Definition ctor_field (f : tfield) (v : tval) : res tval :=
   | FHexStr, VBytes b => if zlen b >? 255 then Internal iValueError else Ok v
   | FB64Tok maxlen, VBytes b => if zlen b >? maxlen then Internal iValueError else Ok v
   | FB64RestOpt, VBytes b => if zlen b >? 65535 then Internal iValueError else Ok v
+  | FKeyRec, VKey f p _ at_ k => do a <- alg_from_text at_; Ok (VKey f p a [] k)
   | FGposStr, VBytes t =>     (* _as_bytes(value, True, 255): str.encode(), at most 255 octets *)
       do e <- utf8_encode t; if zlen e >? 255 then Internal iValueError else Ok (VBytes e)
   | FGw _, VGw g a gw =>      (* Gateway._check *)
@@ -1008,6 +1058,7 @@ Definition schema_of (rdtype : Z) : option (list tfield) :=
   else if rdtype =? CH_A then Some [FName; FOct16]                                 (* A in class CH *)
   else if rdtype =? 20 then Some [cstr; FQOpt]                                     (* ISDN *)
   else if rdtype =? 27 then Some [FGposStr; FGposStr; FGposStr]                    (* GPOS *)
+  else if rdtype =? 25 then Some [FKeyRec]                                         (* KEY *)
   else if rdtype =? 250 then Some [FNameNoRel; FDec max48; u16; FMac; u16; FEnum KRcode; FOther]   (* TSIG *)
   else if rdtype =? 45 then Some [u8; FGw true; FB64RestE]                         (* IPSECKEY *)
   else if rdtype =? 260 then Some [u8; FDec 1; FGw false]                          (* AMTRELAY *)
@@ -1071,6 +1122,7 @@ Definition obs_of_val (v : tval) : obs :=
   | VStrs l => L (map B l)
   | VWindows ws => L (map (fun w => L [I (fst w); B (snd w)]) ws)
   | VNames l => L (map obs_of_name l)
+  | VKey f p a _ k => L [I f; I p; I a; B k]
   | VGw g a gw => L [I g; I a; match gw with GwNone => I 0 | GwText t => obs_of_text t | GwName n => obs_of_name n end]
   end.
 
@@ -1119,6 +1171,7 @@ Fixpoint vals_of_obs (fs : list tfield) (os : list obs) : option (list tval) :=
           | FB64RestE, B b => Some (VBytes b :: r)
           | FMac, B b => Some (VBytes b :: r)
           | FGposStr, B b => Some (VBytes b :: r)
+          | FKeyRec, L [I f; I p; I a; B k] => Some (VKey f p a [] k :: r)
           | FOther, B b => Some (VBytes b :: r)
           | FGw _, L [I g; I a; I 0] => Some (VGw g a GwNone :: r)
           | FGw _, L [I g; I a; B t] => Some (VGw g a (GwText t) :: r)
